@@ -173,8 +173,16 @@ def compare(full, summ_alone, replay, D, annual, h):
             for k in set(want) | set(got):
                 a, b = want.get(k, Fraction(0)), got.get(k, Fraction(0))
                 if not ref.close(a, b):
+                    # observed cause, used by a known-finding signature: the affiliate's holding at the summary date
+                    # was at some point rounding dust (positive, below 1e-15 share) that the summary's base purchase has to carry, so the summary's per-share base price is astronomic
+                    own = None
+                    for r in t["rows"]:
+                        f_ = row_figs(r, col)
+                        if f_["sd"] <= D and f_["af"] == k[1] and f_["own"] is not None and 0 < f_["own"] < Fraction(1, 10 ** 15):
+                            own = f_["own"]      # a sold-out position left with rounding dust before the summary date
                     return {"what": "annual summary does not reproduce a past year's net gain", "sec": sec, "year": k[0], "af": k[1],
-                            "full": str(a), "summary": str(b)}
+                            "full": str(a), "summary": str(b),
+                            "dust_holding_at_summary_date": bool(own is not None and 0 < own < Fraction(1, 10 ** 15))}
     return None
 
 
@@ -302,12 +310,14 @@ def run(tier):
                 V.sample(j["sample"], cap=2)
             seen_kinds = set()
             for f in j["findings"]:
-                kind = (f["what"], f.get("annual"), str(f.get("err", ""))[:40], f.get("later_global_split_near_earlier_split"))
+                kind = (f["what"], f.get("annual"), str(f.get("err", ""))[:40], f.get("later_global_split_near_earlier_split"),
+                        f.get("dust_holding_at_summary_date"))
                 if kind in seen_kinds:
                     continue
                 seen_kinds.add(kind)
                 sig = {"what": f["what"], "annual": f.get("annual"), "err": str(f.get("err", "")),
-                       "later_global_split_near_earlier_split": bool(f.get("later_global_split_near_earlier_split"))}
+                       "later_global_split_near_earlier_split": bool(f.get("later_global_split_near_earlier_split")),
+                       "dust_holding_at_summary_date": bool(f.get("dust_holding_at_summary_date"))}
                 V.violation("%s [%s]" % (json.dumps(f)[:500], j["name"]),
                             {"kind": "summary_trip", "prop": PROP, "history": j["history"], "finding": f,
                              "summary_csv": j.get("summary_csv")}, sig)
